@@ -122,6 +122,7 @@ class ProbeProcess(Process):
         'pid': 'p', 'vars': [], 'writes': {}, 'ts': [1], 'cond': [True],
         'ts_fn': None, 'cond_fn': None, 'emit': True, 'silent': False,
         'emit_off': [],
+        'scale': 1, 'prec': None,     # tick length and global_time_precision
     }
 
     def __init__(self, parameters=None):
@@ -150,6 +151,9 @@ class ProbeProcess(Process):
         self.i_ts += 1
         if not self.parameters['silent']:
             REC.add('ts', self.pid, ans, REC.now(), plain(states.get('v', {})))
+        if self.parameters['prec'] is not None:
+            # timesteps on the 10^-p grid (ans is a number of ticks)
+            return round(ans * self.parameters['scale'], self.parameters['prec'])
         return ans
 
     def update_condition(self, timestep, states):
@@ -168,7 +172,9 @@ class ProbeProcess(Process):
         upd = {}
         for var in self.parameters['vars']:
             if var == self.pid:
-                upd[var] = Amt(timestep, uid)
+                # the clock variable counts ticks
+                upd[var] = Amt(timestep if self.parameters['prec'] is None
+                               else round(timestep / self.parameters['scale']), uid)
             elif var in self.parameters['writes']:
                 amt = self._pick(self.parameters['writes'][var], self.i_inv)
                 upd[var] = Amt(amt, uid)
